@@ -488,6 +488,7 @@ Proof.
       apply (Rel_setv_none nv g st c dst HR Hd).
   - (* remove *) eapply Rel_fresh; eassumption.
   - (* mapcar *) eapply Rel_fresh; eassumption.
+  - (* remove-if *) eapply Rel_fresh; eassumption.
 Qed.
 
 (* ---------- histories ---------- *)
